@@ -183,7 +183,9 @@ func (k FrontendKey) AsBytes() []byte {
 }
 
 func (k FrontendKey) Affinitykey() []byte {
-	return k[4:12]
+	// addr, port and protocol only: byte 11 is the first byte of the source address
+	// (struct calico_nat_key.saddr), not padding.
+	return k[4:11]
 }
 
 func (k FrontendKey) AffinityKeyCopy() FrontEndAffinityKeyInterface {
